@@ -410,10 +410,20 @@ func (l *NDNLPLinkService) reassemblePacket(
 	fragIndex uint64,
 	fragCount uint64,
 ) enc.Wire {
-	_, hasSequence := l.partialMessageStore[baseSequence]
+	// The fragmentation fields come from the network: a fragment count that
+	// no packet can have, or an index outside the count, is dropped
+	if fragCount == 0 || fragCount > defn.MaxNDNPacketSize || fragIndex >= fragCount {
+		core.LogWarn(l, "Received NDNLPv2 frame with invalid fragmentation fields - DROP")
+		return nil
+	}
+
+	partial, hasSequence := l.partialMessageStore[baseSequence]
 	if !hasSequence {
 		// Create map entry
 		l.partialMessageStore[baseSequence] = make([][]byte, fragCount)
+	} else if uint64(len(partial)) != fragCount {
+		core.LogWarn(l, "Received NDNLPv2 fragment whose count disagrees with earlier fragments - DROP")
+		return nil
 	}
 
 	// Insert into PartialMessageStore
